@@ -116,6 +116,7 @@ class Exec(object):
     def __init__(self, world, timeout_ms=10000, max_paths=4000, max_unroll=40):
         self.world = world
         self.timeout_ms = timeout_ms
+        self.branch_timeout_ms = int(os.environ.get('PYVC_BRANCH_MS', '2000'))
         self.max_paths = max_paths
         self.max_unroll = max_unroll
         self.obligations = []
@@ -129,6 +130,7 @@ class Exec(object):
         self.budget_s = 300
         self.loop_specs = {}     # (funcqualname, kind, ordinal) -> spec
         self.call_contracts = {}  # qualname -> contract (modular calls)
+        self.recheck_stats = {'queries': 0, 'skipped': 0, 'tools': {}, 'disagree': []}
         self.on_wait = None
         self.reset_path([])
 
@@ -267,7 +269,52 @@ class Exec(object):
         self.solver.pop()
         self.solver_time += time.time() - t0
         self.solver_calls += 1
+        if time.time() - t0 > 5 and os.environ.get('PYVC_SLOW'):
+            import sys
+            sys.stderr.write('slow check %.1fs %s at %s (%d assertions)\n' % (
+                time.time() - t0, r, self.where(getattr(self, 'cur_node', None)), len(self.solver.assertions())))
         return r
+
+    def recheck(self, name, negated_goal):
+        """thorough tier: the query just answered `unsat` by the z3 5.1 API is dumped as SMT-LIB 2 and decided
+        again by the independent /usr/bin/z3 4.8.12 build (and by cvc5 when it accepts the text).  `sat` from
+        either is a solver disagreement (checker error); anything else than `unsat` is inconclusive."""
+        import subprocess, tempfile
+        st = self.recheck_stats
+        limit = int(os.environ.get('PYVC_RECHECK_MAX', '2000'))
+        if st['queries'] >= limit:
+            st['skipped'] += 1
+            return
+        st['queries'] += 1
+        tmp = z3.Solver()
+        for a in self.solver.assertions():
+            tmp.add(a)
+        if negated_goal is not None:
+            tmp.add(negated_goal)
+        text = tmp.to_smt2()
+        with tempfile.NamedTemporaryFile('w', suffix='.smt2', delete=False, dir=os.environ.get('PYVC_TMP')) as f:
+            f.write(text)
+            path = f.name
+        try:
+            for tool, cmd in (('z3-4.8.12', ['/usr/bin/z3', '-smt2', '-T:20', path]),
+                              ('cvc5-1.0', ['/usr/bin/cvc5', '--tlimit=20000', path])):
+                t0 = time.time()
+                try:
+                    out = subprocess.run(cmd, capture_output=True, text=True, timeout=40).stdout.strip()
+                except Exception:
+                    out = 'timeout'
+                first = out.split('\n')[0].strip() if out else ''
+                e = st['tools'].setdefault(tool, {'unsat': 0, 'sat': 0, 'inconclusive': 0, 'time_s': 0.0})
+                e['time_s'] += time.time() - t0
+                if first == 'unsat':
+                    e['unsat'] += 1
+                elif first == 'sat':
+                    e['sat'] += 1
+                    st['disagree'].append('%s says sat for %s' % (tool, name))
+                else:
+                    e['inconclusive'] += 1
+        finally:
+            os.unlink(path)
 
     def model(self, *extra):
         self.solver.push()
@@ -319,8 +366,14 @@ class Exec(object):
             self.branch_hist = getattr(self, 'branch_hist', {})
             k = self.where(getattr(self, 'cur_node', None))
             self.branch_hist[k] = self.branch_hist.get(k, 0) + 1
-        rt = self.check(c)
-        rf = self.check(z3.Not(c))
+        # feasibility of a guard: `unknown` is treated as feasible (exploring an infeasible path costs time only,
+        # its obligations still need their own unsat), so a short budget is enough here
+        self.solver.set('timeout', min(self.timeout_ms, self.branch_timeout_ms))
+        try:
+            rt = self.check(c)
+            rf = self.check(z3.Not(c))
+        finally:
+            self.solver.set('timeout', self.timeout_ms)
         if rt == z3.unsat and rf == z3.unsat:
             raise PathEnd()
         if rt == z3.unsat:
@@ -397,6 +450,8 @@ class Exec(object):
             r, m = self.model()
             if r == z3.unsat:
                 self.obligations.append(Obligation(name, 'discharged', self.paths, detail, where=where))
+                if self.hooks.get('recheck'):
+                    self.recheck(name, None)
                 return True
             st = 'failed' if r == z3.sat else 'unknown'
             self.obligations.append(Obligation(name, st, self.paths, detail, self.snapshot_model(m),
@@ -405,8 +460,13 @@ class Exec(object):
         g = goal.t if isinstance(goal, SBool) else goal
         r, m = self.model(z3.Not(g))
         dt = time.time() - t0
+        if dt > 5 and os.environ.get('PYVC_SLOW'):
+            import sys
+            sys.stderr.write('slow obligation %.1fs %s %s (%d assertions)\n' % (dt, r, name, len(self.solver.assertions())))
         if r == z3.unsat:
             self.obligations.append(Obligation(name, 'discharged', self.paths, detail, None, dt, where=where))
+            if self.hooks.get('recheck'):
+                self.recheck(name, z3.Not(g))
             return True
         st = 'failed' if r == z3.sat else 'unknown'
         self.obligations.append(Obligation(name, st, self.paths, detail, self.snapshot_model(m), dt, where=where))
